@@ -41,7 +41,7 @@ def residue_family(country: str, base: str, want: int = 97, cap: int = 20000):
     return out, len(seen)
 
 
-def check_member(country: str, bban: str, between=None):
+def check_member(country: str, bban: str, between=None, via_object=False):
     """-> list of (signature, case, expected, observed) for one family member; and eval count"""
     bad = []
     ref = ri.check_digits(country, bban)
@@ -60,6 +60,14 @@ def check_member(country: str, bban: str, between=None):
         dd = f"{d:02d}"
         k, v = lib.iban_parse(country + dd + bban)
         acc = k == "ok"
+        if via_object:
+            # the validating constructor given an IBAN *object* (built with validation off)
+            ko, obj = lib.outcome(lib.IBAN, country + dd + bban, allow_invalid=True)
+            if ko == "ok":
+                k2, v2 = lib.outcome(lambda: str(lib.IBAN(obj)))
+                if (k2 == "ok") != acc:
+                    bad.append(("constructor-given-an-IBAN-object-disagrees-with-text",
+                                {**case, "dd": dd, "via_object": True}, "accept" if acc else "reject", (k2, v2)))
         if acc != (dd == ref):
             if acc:
                 sig = ("alias-accepted" if dd in ("00", "01", "99") else "non-canonical-pair-accepted")
@@ -72,6 +80,8 @@ def check_member(country: str, bban: str, between=None):
 def shard(args):
     if args[0] == "after-activity":
         return after_activity_shard(args)
+    if args[0] == "python -O":
+        return optimised_shard(args)
     country, tier = args
     part = par.Part()
     c = reg.countries()[country]
@@ -83,8 +93,8 @@ def shard(args):
         residues_total += nres
         if nres < 97:
             part.stat("families_not_residue_complete")
-        for b in fam:
-            for sig, case, exp, obs in check_member(country, b):
+        for bi, b in enumerate(fam):
+            for sig, case, exp, obs in check_member(country, b, via_object=(bi % 8 == 0)):
                 part.violation(sig, case, exp, obs)
             part["evals"] += 101
             for d in range(100):
@@ -96,6 +106,16 @@ def shard(args):
             oc = reg.countries()[other]
             shared = [b for b in fam if oc.matches(b)][: (97 if tier == "thorough" else 8)]
             for b in shared:
+                # a BBAN *object* of this country handed to the assembly for the other country
+                ko, src = lib.outcome(lib.IBAN, bases.iban_text(country, b))
+                if ko == "ok":
+                    k3, v3 = lib.outcome(lambda: str(lib.IBAN.from_bban(other, src.bban)))
+                    want = bases.iban_text(other, b)
+                    part["evals"] += 1
+                    if (k3, v3) != ("ok", want):
+                        part.violation("from_bban-with-a-BBAN-object-of-another-country-wrong",
+                                       {"kind": "c02", "country": other, "bban": b, "dd": None,
+                                        "object_of": country}, want, (k3, v3))
                 for sig, case, exp, obs in check_member(other, b):
                     part.violation(sig + " [same BBAN text after another country]", case, exp, obs)
                 for sig, case, exp, obs in check_member(country, b):
@@ -140,8 +160,35 @@ def after_activity_shard(args):
     return part.done()
 
 
+def optimised_child(tier):
+    """Runs inside ``python -O``: three family members per country, full 100-pair check."""
+    part = par.Part()
+    for country in sorted(reg.countries()):
+        c = reg.countries()[country]
+        fam, _ = residue_family(country, bases.bban(c, "distinct"), want=3)
+        for b in fam:
+            for sig, case, exp, obs in check_member(country, b):
+                part.violation(sig + " [python -O]", case, exp, obs)
+            part["evals"] += 101
+            for d in range(100):
+                part.seen.add(hash(("-O", d, country, b)))
+    part.stat("optimised_interpreter_runs")
+    return part.done()
+
+
+def optimised_shard(args):
+    part = par.in_interpreter(["-O"], "mc.props.c02", "optimised_child", args[1])
+    part["foreign"] = part.get("foreign") or set()
+    return part
+
+
 def replay(case: dict) -> dict:
-    bad = check_member(case["country"], case["bban"])
+    if case.get("object_of"):
+        ko, src = lib.outcome(lib.IBAN, bases.iban_text(case["object_of"], case["bban"]))
+        k3, v3 = lib.outcome(lambda: str(lib.IBAN.from_bban(case["country"], src.bban)))
+        want = bases.iban_text(case["country"], case["bban"])
+        return {"ok": (k3, v3) == ("ok", want), "expected": want, "observed": (k3, v3)}
+    bad = check_member(case["country"], case["bban"], via_object=bool(case.get("via_object")))
     for sig, cs, exp, obs in bad:
         if cs.get("dd") == case.get("dd"):
             return {"ok": False, "signature": sig, "expected": exp, "observed": obs}
@@ -151,7 +198,7 @@ def replay(case: dict) -> dict:
 def main(tier: str) -> int:
     run = report.Run(PID, tier, "exploration", RULE)
     countries = sorted(reg.countries())
-    par.run_shards(run, shard, [("after-activity", tier)] + [(c, tier) for c in countries])
+    par.run_shards(run, shard, [("after-activity", tier), ("python -O", tier)] + [(c, tier) for c in countries])
     fams = run.stats.get("families", 0)
     run.exhaustive = (run.stats.get("families_not_residue_complete", 0) == 0)
     run.extra.update({
